@@ -4,6 +4,7 @@ package props
 
 import (
 	"bytes"
+	"net/url"
 	"encoding/json"
 	"fmt"
 	"regexp"
@@ -22,7 +23,8 @@ import (
 // C16 — path-style and virtual-host-style addressing reach the same bucket and key.
 
 type c16Case struct {
-	// Mode: "host" = WithHostBucket(true); "bases" = WithHostBucketBase(Bases...)
+	// Mode: "host" = WithHostBucket(true); "bases" = WithHostBucketBase(Bases...); "both" = both
+	// options (the bases decide the routing, as with "bases")
 	Mode     string    `json:"mode"`
 	Bases    []string  `json:"bases,omitempty"`
 	Base     string    `json:"base"` // the base used to address buckets in host form
@@ -56,7 +58,7 @@ func c16Opts(cs c16Case) backends.Options {
 	if cs.Mode == "host" {
 		return backends.Options{HostBucket: true}
 	}
-	return backends.Options{HostBases: cs.Bases}
+	return backends.Options{HostBases: cs.Bases, HostBucket: cs.Mode == "both"}
 }
 
 func c16Exec(cs c16Case) (ds []disc, sent int) {
@@ -104,16 +106,14 @@ func c16Exec(cs c16Case) (ds []disc, sent int) {
 			var da, db s3x.CompleteDoc
 			xa.XML(&da)
 			xb.XML(&db)
+			// each names the object the way the request that completed it was addressed
 			wantA := "http://s3.test/" + l.Bucket + "/" + l.Key
 			wantB := "http://" + l.Bucket + "." + cs.Base + "/" + l.Key
-			if cs.Mode == "bases" {
-				wantB = "http://" + l.Bucket + "." + cs.Base + "/" + l.Bucket + "/" + l.Key
-			}
 			if da.Location != wantA || db.Location != wantB {
 				return dsc("complete-location", "request %d: Location path-style %q (want %q), host-style %q (want %q)", i, da.Location, wantA, db.Location, wantB), sent
 			}
 		}
-		if cs.FallbackHost != "" && cs.Mode == "bases" && l.Bucket != "" {
+		if cs.FallbackHost != "" && cs.Mode != "host" && l.Bucket != "" {
 			// a host that is not <single label>.<base> must fall back to path-style routing
 			fb := l.pathStyle()
 			fb.Host = cs.FallbackHost
@@ -170,6 +170,63 @@ func c16Snapshot(st *backends.Stack, r *prog.Runner, addr func(bucket, rest stri
 	return sb.String()
 }
 
+// c16Location: the Location in the result of a completed multipart upload is a URL under which
+// the same server serves that object, however the completing request was addressed: via = "" sends
+// it to <bucket>.<base>, any other value is a host that falls back to path-style (the Location
+// then is what the path-style server answers for that host).
+func c16Location(cs c16Case, via string) (ds []disc) {
+	b := backends.Must(backends.Mem, c16Opts(cs))
+	defer b.Close()
+	fail := func(kind, f string, a ...interface{}) {
+		ds = append(ds, dsc(kind, "mode=%s bases=%v completing request sent to %q: "+f, append([]interface{}{cs.Mode, cs.Bases, via}, a...)...)...)
+	}
+	const bucket, key = "bk0", "dir/obj"
+	req := func(method, rest string, q [][2]string, body []byte) *s3x.Resp {
+		rq := &s3x.Req{Method: method, Host: bucket + "." + cs.Base, Path: "/" + rest, Query: q, Body: body}
+		if via != "" {
+			rq.Host, rq.Path = via, "/"+bucket+"/"+rest
+		}
+		return s3x.Do(b.Handler, rq)
+	}
+	if r := req("PUT", "", nil, nil); r.Status != 200 {
+		fail("location-setup", "create bucket: %s", r)
+		return
+	}
+	var init s3x.InitiateDoc
+	if r := req("POST", key, s3x.Q("uploads", s3x.Bare), nil); r.Status != 200 || r.XML(&init) != nil {
+		fail("location-setup", "initiate: %s", r)
+		return
+	}
+	part := []byte("the only part")
+	pr := req("PUT", key, s3x.Q("partNumber", "1", "uploadId", init.UploadId), part)
+	if pr.Status != 200 {
+		fail("location-setup", "upload part: %s", pr)
+		return
+	}
+	x := "<CompleteMultipartUpload><Part><PartNumber>1</PartNumber><ETag>" + xmlEsc(pr.Header.Get("ETag")) + "</ETag></Part></CompleteMultipartUpload>"
+	cr := req("POST", key, s3x.Q("uploadId", init.UploadId), []byte(x))
+	var doc s3x.CompleteDoc
+	if cr.Status != 200 || cr.XML(&doc) != nil {
+		fail("location-setup", "complete: %s", cr)
+		return
+	}
+	u, err := url.Parse(doc.Location)
+	if err != nil || u.Host == "" {
+		fail("complete-location", "Location %q is not an absolute URL (%v)", doc.Location, err)
+		return
+	}
+	g := s3x.Do(b.Handler, &s3x.Req{Method: "GET", Host: u.Host, RawTarget: u.RequestURI()})
+	if g.Status != 200 || !bytes.Equal(g.Body, part) {
+		fail("complete-location", "the result says Location %q (bucket %q, key %q), but GET %s with Host %s answers %d (%d bytes): the URL does not address the object on this server", doc.Location, doc.Bucket, doc.Key, u.RequestURI(), u.Host, g.Status, len(g.Body))
+	}
+	if via != "" {
+		if want := "http://" + via + "/" + bucket + "/" + key; doc.Location != want {
+			fail("complete-location", "a request that falls back to path-style is answered with Location %q; the path-style server answers %q", doc.Location, want)
+		}
+	}
+	return
+}
+
 func c16Replay(check string, raw json.RawMessage) ([]disc, error) {
 	var cs c16Case
 	if err := json.Unmarshal(raw, &cs); err != nil {
@@ -177,6 +234,9 @@ func c16Replay(check string, raw json.RawMessage) ([]disc, error) {
 	}
 	if check == "slashes" {
 		return c16Slashes(cs), nil
+	}
+	if check == "location" {
+		return c16Location(cs, cs.FallbackHost), nil
 	}
 	ds, _ := c16Exec(cs)
 	return ds, nil
@@ -252,6 +312,9 @@ var c16Modes = []c16Case{
 	{Mode: "bases", Bases: []string{"example.com", "s3.example.com"}, Base: "example.com"},
 	{Mode: "bases", Bases: []string{"s3.example.com", "example.com", "eu.s3.example.com"}, Base: "eu.s3.example.com"},
 	{Mode: "bases", Bases: []string{"test:9000", "s3.test:9000", "s3.test"}, Base: "s3.test:9000"},
+	{Mode: "both", Bases: []string{"s3.test"}, Base: "s3.test"},
+	{Mode: "both", Bases: []string{"other.example", "s3.test:9000", ".dotted.example."}, Base: "s3.test:9000"},
+	{Mode: "both", Bases: []string{"example.com", "s3.example.com"}, Base: "example.com"},
 }
 
 // c16HostStyle reports whether host is "<single label>.<base>" for one of the bases (the
@@ -323,7 +386,20 @@ func c16Run(t *testing.T, c *evid.Collector) {
 			cs.Setup = setup
 			cs.Requests = probes
 			record("slashes", cs, c16Slashes(cs), len(probes), "fixed")
-			if m.Mode == "bases" {
+			vias := []string{""}
+			if m.Mode != "host" {
+				vias = append(vias, c16Fallbacks(m)...)
+			}
+			for _, via := range vias {
+				if strings.HasSuffix(via, ".") {
+					continue
+				}
+				cl := m
+				cl.FallbackHost = via
+				cl.Requests = []lreq{{Method: "POST", Bucket: "bk0", Key: "dir/obj", Query: s3x.Q("uploadId", "1"), Family: "complete"}}
+				record("location", cl, c16Location(cl, via), 4, "fixed-location")
+			}
+			if m.Mode != "host" {
 				for _, fh := range c16Fallbacks(m) {
 					cf := m
 					cf.Setup, cf.Requests, cf.FallbackHost = setup, probes[:8], fh
@@ -349,7 +425,7 @@ func c16Run(t *testing.T, c *evid.Collector) {
 		for i := 0; i < n; i++ {
 			cs.Requests = append(cs.Requests, genRequest(rt, ctx))
 		}
-		if cs.Mode == "bases" && rapid.Bool().Draw(rt, "fb") {
+		if cs.Mode != "host" && rapid.Bool().Draw(rt, "fb") {
 			cs.FallbackHost = rapid.SampledFrom(c16Fallbacks(cs)).Draw(rt, "fbhost")
 		}
 		ds, sent := c16Exec(cs)
